@@ -170,7 +170,7 @@ theorem slice_sound (D : List Quad) (p : GP) (start : Nat) (len : Option Nat) (g
     · cases len with
       | none => exact List.drop_sublist _ _
       | some n => exact (List.take_sublist _ _).trans (List.drop_sublist _ _)
-    · cases len <;> simp [sliceList]
+    · cases len <;> simp [sliceRows]
 
 /-! ## Dispatch: everything outside the fragment is refused, never half-answered -/
 
@@ -206,12 +206,19 @@ def tagInFragment : GPTag → Bool
   | .bgp | .filter | .union | .graph | .extend | .orderBy | .project | .distinct | .slice => true
   | _ => false
 
-/-- **fragment_refused.**  the table refuses every constructor outside the fragment and handles
-every constructor inside it -/
+/-- the method `ExecState::select` dispatches each constructor of the fragment to -/
+def handlerOf : GPTag → Option String
+  | .bgp => some "bgp" | .filter => some "filter" | .union => some "union" | .graph => some "graph"
+  | .extend => some "extend" | .orderBy => some "order_by" | .project => some "project"
+  | .distinct => some "distinct" | .slice => some "slice"
+  | _ => none
+
+/-- **fragment_refused.**  the table refuses every constructor outside the fragment and sends every
+constructor inside it to *its own* handler (`Filter` to `filter`, `Union` to `union`, …) -/
 theorem fragment_refused (t : GPTag) :
     (tagInFragment t = false → ∃ w, tableAt t = some (.notImplemented w)) ∧
-    (tagInFragment t = true → ∃ h, tableAt t = some (.handler h)) := by
-  cases t <;> simp [tagInFragment, tableAt, selectTable, GPTag.rustName, List.lookup]
+    (tagInFragment t = true → ∃ h, handlerOf t = some h ∧ tableAt t = some (.handler h)) := by
+  cases t <;> simp [tagInFragment, handlerOf, tableAt, selectTable, GPTag.rustName, List.lookup]
 
 /-- a pattern with constructor `t` whose sub-patterns are empty BGPs -/
 def sample : GPTag → GP
@@ -249,11 +256,26 @@ theorem query_dispatch (D : List Quad) :
     simp [fromNamed] at h; subst h
     simp [Sparql.query, execNew, hn]
 
-/-- the specification refuses exactly what lies outside the fragment (by definition of
-`evalQuery`): with `fragment_refused` and `unsupported_err`, both sides refuse together -/
-theorem spec_refuses (D : List Quad) (p : GP) (h : inFragment p = false) :
+/-- **refusal_both.**  a refused operator anywhere in the pattern (outside EXISTS patterns, see
+`dev_exists_swallow`) makes *both* sides refuse: the evaluator returns an error — never rows or a
+boolean — for every dataset, and the specification classifies the query as outside the fragment. -/
+theorem refusal_both (D : List Quad) (p : GP) (h : SparqlDev.inFragmentSw p = false) :
+    (∃ e, Sparql.query D (.select none p) = .err e) ∧ (∃ e, Sparql.query D (.ask none p) = .err e) ∧
     evalQuery D (.select none p) = .err .unsupported ∧ evalQuery D (.ask none p) = .err .unsupported := by
-  simp [evalQuery, h]
+  obtain ⟨e, he⟩ := refused_never_answers D p h [none] none
+  have hf : inFragment p = false := by
+    cases hp : inFragment p with
+    | false => rfl
+    | true => rw [inFragment_sw p hp] at h; cases h
+  exact ⟨⟨e, by simp [Sparql.query, execNew, he]⟩, ⟨e, by simp [Sparql.query, execNew, he]⟩,
+    by simp [evalQuery, hf], by simp [evalQuery, hf]⟩
+
+/-- the switches regenerated from the source on every run, as the theorems and witnesses of this
+file need them: `||`/`&&` and `GRAPH ?g` over no named graph are repaired (e4da433, d984918); IN, IF
+and the refusal inside EXISTS are as in findings/C13.json.  A change of any of them fails here. -/
+theorem gen_flags :
+    orAndLenient = true ∧ graphEmptyFixed = true ∧ inLenient = false ∧ ifEbvStrict = false ∧
+    existsChecked = false := by decide
 
 /-! ## Totality -/
 
@@ -367,6 +389,38 @@ theorem dev_ebv_illtyped : ¬ ExprOK (.not (.const (.lit "1a".toList xsdInteger)
   have := (h {} [] (fun _ => rfl)).1
   revert this
   decide
+
+/-- finding C13-in-first-error: `1 IN (?x, 1)` with `?x` unbound -/
+theorem dev_in_strict :
+    ¬ ExprOK (.inl (.const (intTerm 1)) (.var "x".toList)
+      (.inl (.const (intTerm 1)) (.const (intTerm 1)) (.const (boolTerm false)))) := by
+  intro h
+  have := (h {} [] (fun _ => rfl)).1
+  revert this
+  decide
+
+/-- finding C13-if-ebv-error: `IF(<x:a>, 1, 2)` -/
+theorem dev_if_ebv : ¬ ExprOK (.ite (.const (iriT "x:a")) (.const (intTerm 1)) (.const (intTerm 2))) := by
+  intro h
+  have := (h {} [] (fun _ => rfl)).2
+  revert this
+  decide
+
+/-- finding C13-exists-swallows-refusal: `ASK { ?s ?p ?o FILTER NOT EXISTS { ?s ?p ?o OPTIONAL { ?o ?p ?s } } }`
+is answered (true) although OPTIONAL is not implemented; the specification refuses -/
+theorem dev_exists_swallow :
+    let D := [q (iriT "x:a") (iriT "x:p") (iriT "x:b") none]
+    let p := GP.filterExists true (.leftJoin (.bgp [spo]) (.bgp [⟨vT "o", vT "p", vT "s"⟩])) (.bgp [spo])
+    Sparql.query D (.ask none p) = .bool true ∧ evalQuery D (.ask none p) = .err .unsupported := ⟨rfl, rfl⟩
+
+/-- finding C13-from-default-graphs: `FROM <x:g1> FROM <x:g2>` (dataset clause without `named` list)
+over two graphs sharing a triple: two rows, the RDF merge has one -/
+theorem dev_from_unmerged :
+    let D := [q (iriT "x:a") (iriT "x:p") (iriT "x:b") (some (iriT "x:g1")),
+              q (iriT "x:a") (iriT "x:p") (iriT "x:b") (some (iriT "x:g2"))]
+    let qq := Query.select (some ⟨["x:g1".toList, "x:g2".toList], none⟩) (.project (.bgp [spo]) ["s".toList])
+    (∃ r, Sparql.query D qq = .rows r ∧ r.rows.length = 2) ∧
+    (∃ Ω, evalQuery D qq = .rows ["s".toList] Ω ∧ Ω.length = 1) := ⟨⟨_, rfl, rfl⟩, ⟨_, rfl, rfl⟩⟩
 
 /-! ## The hypotheses are satisfiable by non-trivial values -/
 
